@@ -36,6 +36,19 @@ func cond(root map[string]any, at any, args ...any) any {
 	return nil
 }
 
+// dupList copies the nested arrays of a cond member so that compiling it
+// leaves the plan data as given.
+func dupList(list []any) []any {
+	dup := make([]any, len(list))
+	for i, v := range list {
+		if sub, ok := v.([]any); ok {
+			v = dupList(sub)
+		}
+		dup[i] = v
+	}
+	return dup
+}
+
 func evalValue(root map[string]any, at any, value any) (result any) {
 top:
 	switch tv := value.(type) {
@@ -45,7 +58,7 @@ top:
 		if 0 < len(tv) {
 			if name, _ := tv[0].(string); 0 < len(name) {
 				if af := NewFn(name); af != nil {
-					af.Args = tv[1:]
+					af.Args = dupList(tv[1:])
 					af.compile()
 					value = af
 					goto top
